@@ -190,6 +190,16 @@ func ruleC19(w *World, r *Report) {
 			})
 		}
 		r.check(whole, "R19.2", sname, "body decoded as one whole JSON document", w.Pos(unmarshal.Pos()), n, "the body is decoded with "+n+" without checking for trailing data: a malformed body whose prefix is a valid document is accepted")
+		// the document is decoded into a value of this request: encoding/json leaves members the document
+		// omits untouched, so a target that outlives the request mixes two documents (and races)
+		if cc := unmarshal; cc != nil {
+			tgt := cc.Call.Args[len(cc.Call.Args)-1]
+			if mi, isMI := tgt.(*ssa.MakeInterface); isMI {
+				tgt = mi.X
+			}
+			al, isAl := tgt.(*ssa.Alloc)
+			r.check(isAl && al.Parent() == cc.Parent(), "R19.2", sname, "the document is decoded into a fresh per-request value", w.Pos(cc.Pos()), "local variable of the handler call", "the body is decoded into "+symOf(tgt).String()+", which outlives the request: members a later document omits (bitrate unit, burst sizes) keep the values of an earlier request, and concurrent requests share the target")
+		}
 	}
 	isMethodLoad := func(v ssa.Value) bool {
 		u, ok := v.(*ssa.UnOp)
